@@ -27,7 +27,7 @@ func C16(c *run.Ctx) {
 	c.Need("c16_tokens_after_approval", 1)
 	c.Need("c16_refused_polls", 1)
 	c.Need("c16_replays", 1)
-	events := []string{"accept", "reject", "pollR", "pollW", "pollWbody", "expire", "tick"}
+	events := []string{"accept", "reject", "pollR", "pollW", "pollWbody", "pollRsplit", "expire", "tick"}
 	maxLen := 4
 	if !c.Quick() {
 		maxLen = 6
@@ -115,7 +115,27 @@ func C16(c *run.Ctx) {
 						c.Violate(run.Violation{Kind: "alive:expired", Key: "alive:expired user_code", Detail: "user code accepted after its expiry", History: hist})
 					}
 				}
-			case "pollR", "pollW", "pollWbody":
+			case "pollR", "pollW", "pollWbody", "pollRsplit":
+				if ev == "pollRsplit" {
+					ev = "pollR"
+					if d.decision == "accepted" && !d.used && !expired && !boundary {
+						// the code expires while the request is being processed: between the two phases of the token endpoint
+						out := w.Token(url.Values{"grant_type": {"urn:ietf:params:oauth:grant-type:device_code"}, "device_code": {d.dc}}, authFor(w, client), func(fosite.AccessRequester) {
+							world.Sleep(d.exp.Add(time.Second).Sub(time.Now()))
+						})
+						ok := out.Err == nil && out.S("access_token") != ""
+						hist = append(hist, fmt.Sprintf("poll (code expires between request validation and response) => ok=%v %s", ok, world.ErrDetail(out.Err)))
+						c.Case(fmt.Sprintf("poll right-client state=accepted expires-mid-request ok=%v err=%s", ok, out.ErrName))
+						c.Count("c16_split_phase_polls", 1)
+						if ok {
+							c.Violate(run.Violation{Kind: "device-tokens-without-right", Key: "device-tokens-without-right expired-mid-request", Case: fmt.Sprint(si),
+								Detail: "tokens delivered for a device code that had expired by the time the response was built", History: hist})
+							d.used = true
+							d.at, d.rt = out.S("access_token"), out.S("refresh_token")
+						}
+						continue
+					}
+				}
 				as := client
 				if ev != "pollR" {
 					as = wrong
